@@ -27,7 +27,7 @@ PROPS = {
                          {"harness": "degen_z", "args": ["--n", 3, "--nc", 2, "--n2", 2, "--mag", 0]},
                          {"harness": "allocfault", "args": []}, {"harness": "allocfault_z", "args": []}],
         },
-        "rule": "scope D: every path of 0..n points WITH repeats over the 3x3 lattice {-M,0,M}^2 (M = 1, 2^29, 2^40, 2^62 for boolean only) crossed as subject x clip (all 5 clip types x 4 fill rules, paths and polytree), open subject x clip, "
+        "rule": "star polygons {n/k} (5<=n<=41, all coprime k, radius 1000 x M) against three central rectangles through RectClip / RectClipLines (objects executed twice), Union and offsetting; scope D: every path of 0..n points WITH repeats over the 3x3 lattice {-M,0,M}^2 (M = 1, 2^29, 2^40, 2^62 for boolean only) crossed as subject x clip (all 5 clip types x 4 fill rules, paths and polytree), open subject x clip, "
                 "offset group(s) x 4 joins x 5 end types x 7 deltas, RectClip/RectClipLines x 7 rectangles (empty and inverted included), Minkowski operands, every path utility, C exports with null/empty arrays; builds with and without USINGZ; "
                 "non-trivial = the operation returned a non-empty result",
         "level_text": "Every case of the degenerate scope is executed on the real library built with AddressSanitizer, UBSan and _GLIBCXX_SANITIZE_VECTOR in forked batches; any sanitizer report, fatal signal, stalled case (watchdog) or growing live-heap ledger is attributed to the single case that caused it.",
